@@ -29,7 +29,7 @@ import (
 
 func c15Counts(tier string) (histories, ops int) {
 	if tier == "thorough" {
-		return 10000, 120
+		return 20000, 120
 	}
 	return 1200, 40
 }
